@@ -47,7 +47,7 @@ class Facts:
             return
         with open(base) as fh:
             known = {l.strip() for l in fh if l.strip() and not l.startswith('#')}
-        self.new_fns = {p for p in self.hir if p not in known}
+        self.new_fns = {p for p, r in self.hir.items() if p not in known and r.get('kind') in ('Fn', 'AssocFn')}
         if not self.new_fns:
             return
         pol = lambda cal: cal in self.new_fns
